@@ -628,9 +628,9 @@ Proof. intros. unfold flush. rewrite fold_left_app. reflexivity. Qed.
 Lemma from_proto_ok : forall p vs, from_proto p = LvOk vs -> vs = p /\ storable p.
 Proof.
   intros [l q] vs H. unfold from_proto in H. simpl in H.
-  destruct q as [q|] eqn:Eq; [|discriminate].
+  destruct q as [q0|]; [|discriminate].
   destruct (total_power l) eqn:Et; [|discriminate].
-  destruct l as [|v r] eqn:El; [discriminate|]. injection H as <-.
+  destruct l as [|v r]; [discriminate|]. injection H as <-.
   split; [reflexivity|]. repeat split; simpl; congruence.
 Qed.
 
@@ -744,4 +744,415 @@ Proof.
       * intros Hx. rewrite H1 by lia. apply db_get_apply_other. simpl. lia.
       * intros Hx. destruct (Z.eq_dec x h) as [->|Hne]; [|apply H2; lia].
         left. split; [exact Ek|]. rewrite H1 by lia. simpl. apply db_get_del_same.
+Qed.
+
+Lemma prune_states_spec : forall K d from to d',
+  prune_states K d from to = Some d' ->
+  0 < from < to /\ exists vi, db_get to d = Some vi /\
+    forall x, ((x < from \/ to <= x) -> db_get x d' = db_get x d) /\
+              (from <= x < to ->
+               pruned_entry K (match vi_set vi with
+                               | None => [vi_last_changed vi;
+                                          last_stored_height_for K to (vi_last_changed vi)]
+                               | Some _ => []
+                               end) d d' x).
+Proof.
+  intros K d from to d' H. unfold prune_states in H.
+  destruct (from <=? 0) eqn:E1; [discriminate|]. destruct (to <=? 0) eqn:E2; [discriminate|].
+  simpl in H. destruct (from >=? to) eqn:E3; [discriminate|].
+  apply Z.leb_gt in E1. apply Z.leb_gt in E2.
+  assert (from < to) by (destruct (Z.geb_spec from to); [discriminate|lia]).
+  split; [lia|]. destruct (db_get to d) as [vi|]; [|discriminate].
+  exists vi. split; [reflexivity|]. intros x.
+  eapply prune_loop_spec with (d0 := d) (x := x) in H.
+  - destruct H as [H1 H2]. split.
+    + intros Hx. apply H1. lia.
+    + intros Hx. apply H2. lia.
+  - intros o [].
+  - intros y _. reflexivity.
+Qed.
+
+(* everything outside [from, to) is left as it was *)
+Lemma prune_states_outside : forall K d from to d' x,
+  prune_states K d from to = Some d' -> x < from \/ to <= x -> db_get x d' = db_get x d.
+Proof.
+  intros K d from to d' x H Hx. apply prune_states_spec in H.
+  destruct H as (_ & vi & _ & H). apply (proj1 (H x)). exact Hx.
+Qed.
+
+(* checkpoint arithmetic *)
+Lemma cp_succ : forall K h, 0 < K -> 0 < h -> Z.rem (h + 1) K <> 0 ->
+  h + 1 - Z.rem (h + 1) K = h - Z.rem h K.
+Proof.
+  intros K h HK Hh Hnz.
+  pose proof (Z.quot_rem' h K) as E. pose proof (rem_range h K Hh HK) as Hr.
+  destruct (Z.eq_dec (Z.rem h K + 1) K) as [Eq|Ne].
+  - exfalso. apply Hnz. replace (h + 1) with ((Z.quot h K + 1) * K) by lia.
+    apply Z.rem_mul. lia.
+  - assert (Z.rem h K + 1 = Z.rem (h + 1) K).
+    { apply (Z.rem_unique (h + 1) K (Z.quot h K)); lia. }
+    lia.
+Qed.
+
+Lemma cp_same : forall K t h, 0 < K -> 0 < t <= h -> h - Z.rem h K <= t ->
+  t - Z.rem t K = h - Z.rem h K.
+Proof.
+  intros K t h HK Ht Hle.
+  pose proof (Z.quot_rem' h K) as E. pose proof (rem_range h K ltac:(lia) HK) as Hr.
+  assert (t - K * Z.quot h K = Z.rem t K).
+  { apply (Z.rem_unique t K (Z.quot h K)); lia. }
+  lia.
+Qed.
+
+Lemma ipp1_iter_snoc : forall k a b c,
+  ipp1_iter k a = Some b -> ipp 1 b = Some c -> ipp1_iter (S k) a = Some c.
+Proof.
+  induction k as [|k IH]; intros a b c H1 H2.
+  - simpl in H1. injection H1 as ->. simpl. rewrite H2. reflexivity.
+  - simpl in H1. destruct (ipp 1 a) as [a'|] eqn:E; [|discriminate].
+    change (ipp1_iter (S (S k)) a) with
+      (match ipp 1 a with Some vs' => ipp1_iter (S k) vs' | None => None end).
+    rewrite E. eapply IH; eassumption.
+Qed.
+
+(* ------------------------------------------------------------------ invariant with a base *)
+
+Definition entry_ok2 (K : Z) (d : db) (sets : list (Z * valset)) (h : Z) (vs : valset) : Prop :=
+  exists vi, db_get h d = Some vi /\
+    ((vi_set vi = Some vs /\ (h = vi_last_changed vi \/ Z.rem h K = 0)) \/
+     (vi_set vi = None /\ vi_last_changed vi < h /\ Z.rem h K <> 0 /\
+      exists vs0,
+        In (last_stored_height_for K h (vi_last_changed vi), vs0) sets /\
+        full_at d (last_stored_height_for K h (vi_last_changed vi)) vs0 /\
+        ipp1_iter (Z.to_nat (h - last_stored_height_for K h (vi_last_changed vi))) vs0
+          = Some vs)).
+
+Lemma entry_ok2_ok : forall K d sets h vs,
+  0 < K <= max_int32 -> 0 < h -> entry_ok2 K d sets h vs -> entry_ok K d sets h vs.
+Proof.
+  intros K d sets h vs HK Hh (vi & Hget & Hcase). exists vi. split; [exact Hget|].
+  destruct Hcase as [(Hs & _)|(Hn & Hlt & Hnz & vs0 & Hin & Hfull & Hit)]; [left; exact Hs|right].
+  split; [exact Hn|]. cbv zeta.
+  destruct (ptr_ls_bounds K h _ HK Hh Hlt Hnz) as (Hb1 & Hb2 & _).
+  split; [lia|]. split; [exact Hb2|]. exists vs0. tauto.
+Qed.
+
+Lemma entry_ok2_mono : forall K d sets x v vx h vs,
+  (forall y vy, In (y, vy) sets -> y <> x) -> In (h, vs) sets ->
+  entry_ok2 K d sets h vs -> entry_ok2 K (db_set x v d) ((x, vx) :: sets) h vs.
+Proof.
+  intros K d sets x v vx h vs Hfresh Hin (vi & Hget & Hcase).
+  exists vi. split; [rewrite db_get_set_other; [exact Hget|eapply Hfresh; exact Hin]|].
+  destruct Hcase as [Hf|(Hn & Hlt & Hnz & vs0 & Hin0 & Hfull & Hit)]; [left; exact Hf|right].
+  split; [exact Hn|]. split; [exact Hlt|]. split; [exact Hnz|]. exists vs0.
+  split; [right; exact Hin0|]. split; [|exact Hit].
+  apply full_at_mono; [eapply Hfresh; exact Hin0|exact Hfull].
+Qed.
+
+Record PInv (K initial : Z) (n : node) : Prop := {
+  p_initial : st_initial (n_state n) = initial;
+  p_last : st_last (n_state n) = 0 \/ initial <= st_last (n_state n);
+  p_lc : st_changed (n_state n) <= top_of (n_state n);
+  p_top : In (top_of (n_state n), st_next (n_state n)) (n_sets n);
+  p_range : forall h vs, In (h, vs) (n_sets n) ->
+              initial <= h <= top_of (n_state n) /\ storable vs;
+  p_total : forall h, initial <= h <= top_of (n_state n) -> exists vs, In (h, vs) (n_sets n);
+  p_base : initial <= n_base n <= top_of (n_state n);
+  p_keys : forall x vi, db_get x (n_db n) = Some vi -> x <= top_of (n_state n);
+  p_T : exists vi, db_get (top_of (n_state n)) (n_db n) = Some vi /\
+                   vi_last_changed vi = st_changed (n_state n);
+  p_M : forall h1 h2 vi1 vi2, n_base n <= h1 -> h1 <= h2 ->
+          db_get h1 (n_db n) = Some vi1 -> db_get h2 (n_db n) = Some vi2 ->
+          vi_last_changed vi1 <= h1 /\ vi_last_changed vi1 <= vi_last_changed vi2 /\
+          (vi_last_changed vi2 = vi_last_changed vi1 \/ h1 < vi_last_changed vi2);
+  p_entries : forall h vs, In (h, vs) (n_sets n) -> n_base n <= h ->
+                entry_ok2 K (n_db n) (n_sets n) h vs
+}.
+
+Lemma pinv_load : forall K initial n h vs,
+  0 < K <= max_int32 -> 0 < initial ->
+  PInv K initial n -> In (h, vs) (n_sets n) -> n_base n <= h ->
+  load_validators K (n_db n) h = LvOk vs.
+Proof.
+  intros K initial n h vs HK Hinit I Hin Hb.
+  eapply entry_ok_load; [|exact Hin|].
+  - intros h' vs' H'. apply (p_range _ _ _ I) in H'. tauto.
+  - apply entry_ok2_ok; [exact HK| |apply (p_entries _ _ _ I); assumption].
+    apply (p_range _ _ _ I) in Hin. lia.
+Qed.
+
+Lemma pinv_extend : forall K initial s d b sets s' d',
+  0 < K <= max_int32 -> 0 < initial ->
+  PInv K initial (mkNode s d b sets) ->
+  st_initial s' = initial -> st_last s' = block_height s -> storable (st_next s') ->
+  ((st_changed s' = st_changed s /\ ipp 1 (st_next s) = Some (st_next s')) \/
+   st_changed s' = block_height s + 2) ->
+  save_validators_info K (block_height s + 2) (st_changed s') (st_next s') d = Some d' ->
+  PInv K initial (mkNode s' d' b ((st_last s' + 2, st_next s') :: sets)).
+Proof.
+  intros K initial s d b sets s' d' HK Hinit I Hi' Hl' Hst' Hcase Hsave.
+  destruct I as [I1 I2 I3 I4 I5 I7 IB IK IT IM I11].
+  cbn [n_state n_db n_sets n_base] in *.
+  set (T := top_of s) in *.
+  assert (HT : block_height s + 2 = T + 1 /\ initial <= block_height s).
+  { unfold T, top_of, block_height. destruct I2 as [E|E].
+    - rewrite E. simpl. lia.
+    - destruct (st_last s =? 0) eqn:E0; [apply Z.eqb_eq in E0; lia|lia]. }
+  destruct HT as [HT Hbh].
+  assert (HT' : top_of s' = T + 1).
+  { unfold top_of. rewrite Hl'. destruct (block_height s =? 0) eqn:E0;
+      [apply Z.eqb_eq in E0; lia|lia]. }
+  assert (Hhd : st_last s' + 2 = T + 1) by (rewrite Hl'; exact HT).
+  rewrite HT in *. rewrite Hhd.
+  set (vn := st_next s') in *. set (lc' := st_changed s') in *. set (LC := st_changed s) in *.
+  assert (Hfresh : forall y vy, In (y, vy) sets -> y <> T + 1).
+  { intros y vy Hy. apply I5 in Hy. lia. }
+  destruct (svi_spec _ _ _ _ _ _ Hst' Hsave) as (Hlcle & vi & -> & Hvlc & Hvi).
+  destruct IT as (vit & Hgt & Hlct).
+  constructor; cbn [n_state n_db n_sets n_base]; rewrite ?HT'.
+  - exact Hi'.
+  - right. rewrite Hl'. exact Hbh.
+  - exact Hlcle.
+  - left. reflexivity.
+  - intros h vs [E|Hin].
+    + injection E as <- <-. split; [lia|exact Hst'].
+    + apply I5 in Hin. split; [lia|tauto].
+  - intros h Hh. destruct (Z.eq_dec h (T + 1)) as [->|Hne].
+    + exists vn. left. reflexivity.
+    + destruct (I7 h) as [vs Hvs]; [lia|]. exists vs. right. exact Hvs.
+  - lia.
+  - intros x vi0 Hg. destruct (Z.eq_dec x (T + 1)) as [->|Hne]; [lia|].
+    rewrite db_get_set_other in Hg by exact Hne. apply IK in Hg. lia.
+  - exists vi. split; [apply db_get_set_same|exact Hvlc].
+  - intros h1 h2 vi1 vi2 Hb Hle G1 G2.
+    destruct (Z.eq_dec h1 (T + 1)) as [E1|N1]; destruct (Z.eq_dec h2 (T + 1)) as [E2|N2].
+    + subst h1 h2. rewrite db_get_set_same in G1, G2. injection G1 as <-. injection G2 as <-.
+      rewrite Hvlc. split; [exact Hlcle|]. split; [lia|left; reflexivity].
+    + rewrite db_get_set_other in G2 by exact N2. apply IK in G2. lia.
+    + subst h2. rewrite db_get_set_same in G2. injection G2 as <-.
+      rewrite db_get_set_other in G1 by exact N1.
+      pose proof (IK _ _ G1) as Hk1.
+      destruct (IM h1 T vi1 vit Hb Hk1 G1 Hgt) as (M1 & M2 & M3).
+      rewrite Hvlc. rewrite Hlct in M2, M3.
+      destruct Hcase as [(Hlc & _)|Hlc]; [rewrite Hlc; tauto|lia].
+    + rewrite db_get_set_other in G1 by exact N1. rewrite db_get_set_other in G2 by exact N2.
+      eapply IM; eassumption.
+  - intros h vs [E|Hin] Hb.
+    + injection E as <- <-. exists vi. split; [apply db_get_set_same|]. rewrite Hvlc.
+      destruct Hvi as [(Hc & Hset)|(Hlt & Hnz & Hnone)].
+      { left. split; [exact Hset|exact Hc]. }
+      right. split; [exact Hnone|]. split; [exact Hlt|]. split; [exact Hnz|].
+      destruct Hcase as [(Hlc & Hipp)|Hlc]; [|lia]. rewrite Hlc.
+      assert (Els : last_stored_height_for K (T + 1) LC = last_stored_height_for K T LC).
+      { unfold last_stored_height_for. rewrite cp_succ; [reflexivity|lia|lia|exact Hnz]. }
+      rewrite Els.
+      destruct (I11 T (st_next s) I4 ltac:(lia)) as (vit' & Hgt' & Hc').
+      rewrite Hgt in Hgt'. injection Hgt' as <-. rewrite Hlct in Hc'.
+      destruct Hc' as [(Hs & Hwhy)|(Hn & Hlt0 & Hnz0 & vs0 & Hin0 & Hf0 & Hit0)].
+      * assert (Et : last_stored_height_for K T LC = T).
+        { unfold last_stored_height_for. pose proof (rem_range T K ltac:(lia) ltac:(lia)). lia. }
+        rewrite Et. exists (st_next s). split; [right; exact I4|].
+        split.
+        -- apply full_at_mono; [lia|]. exists (vi_last_changed vit). rewrite Hgt.
+           destruct vit; simpl in *; congruence.
+        -- replace (T + 1 - T) with 1 by lia. simpl. rewrite Hipp. reflexivity.
+      * destruct (ptr_ls_bounds K T LC HK ltac:(lia) Hlt0 Hnz0) as (Hb1 & _).
+        exists vs0. split; [right; exact Hin0|]. split.
+        -- apply full_at_mono; [lia|exact Hf0].
+        -- replace (Z.to_nat (T + 1 - last_stored_height_for K T LC))
+             with (S (Z.to_nat (T - last_stored_height_for K T LC))) by lia.
+           eapply ipp1_iter_snoc; eassumption.
+    + apply entry_ok2_mono; [exact Hfresh|exact Hin|]. apply I11; assumption.
+Qed.
+
+Lemma pinv_block : forall K initial n ups,
+  0 < K <= max_int32 -> 0 < initial ->
+  PInv K initial n -> PInv K initial (step K n (OBlock ups)).
+Proof.
+  intros K initial [s d b sets] ups HK Hinit I. unfold step. cbn [n_state n_db n_sets n_base].
+  destruct (update_state s ups) as [s'|] eqn:Eu; [|exact I].
+  destruct (save K s' d) as [d'|] eqn:Es; [|exact I].
+  apply update_state_spec in Eu. destruct Eu as (U1 & U2 & U3 & U4).
+  assert (Hbh : initial <= block_height s).
+  { pose proof (p_last _ _ _ I) as I2. cbn [n_state] in I2. unfold block_height.
+    pose proof (p_initial _ _ _ I) as I1. cbn [n_state] in I1.
+    destruct I2 as [E|E]; [rewrite E; simpl; lia|].
+    destruct (st_last s =? 0) eqn:E0; [apply Z.eqb_eq in E0; lia|lia]. }
+  unfold save in Es. rewrite U2 in Es.
+  destruct (block_height s + 1 =? 1) eqn:E1; [apply Z.eqb_eq in E1; lia|].
+  replace (block_height s + 1 + 1) with (block_height s + 2) in Es by lia.
+  eapply pinv_extend; try eassumption.
+  rewrite U1. exact (p_initial _ _ _ I).
+Qed.
+
+Lemma pinv_start : forall K valz initial n0,
+  0 < K <= max_int32 -> 0 < initial ->
+  start K valz initial = Some n0 -> PInv K initial n0.
+Proof.
+  intros K valz initial n0 HK Hinit H. unfold start in H.
+  destruct (make_genesis valz initial) as [s|] eqn:Eg; [|discriminate].
+  destruct (save K s []) as [d|] eqn:Es; [|discriminate]. injection H as <-.
+  unfold make_genesis in Eg. destruct valz as [|v0 valz]; [discriminate|].
+  destruct (new_validator_set (v0 :: valz)) as [vs|] eqn:Env; [|discriminate].
+  destruct (ipp 1 vs) as [nx|] eqn:Eipp; [|discriminate]. injection Eg as <-.
+  assert (Hvs : storable vs) by (eapply new_validator_set_storable; [|exact Env]; discriminate).
+  assert (Hnx : storable nx) by (eapply ipp_storable; exact Eipp).
+  unfold save in Es. cbn [st_initial st_last st_vals st_next st_changed] in *.
+  change (0 + 1 =? 1) with true in Es. cbv iota in Es.
+  destruct (save_validators_info K initial initial vs []) as [d1|] eqn:E1; [|discriminate].
+  destruct (svi_spec _ _ _ _ _ _ Hvs E1) as (_ & vi1 & -> & Hlc1 & Hvi1).
+  destruct (svi_spec _ _ _ _ _ _ Hnx Es) as (_ & vi2 & -> & Hlc2 & Hvi2).
+  assert (Hset1 : vi_set vi1 = Some vs) by (destruct Hvi1 as [(_ & E)|(E & _)]; [exact E|lia]).
+  assert (Hfull1 : full_at (db_set (initial + 1) vi2 (db_set initial vi1 [])) initial vs).
+  { exists (vi_last_changed vi1). rewrite db_get_set_other by lia. rewrite db_get_set_same.
+    destruct vi1; simpl in *; congruence. }
+  assert (Hkeys : forall x vi0, db_get x (db_set (initial + 1) vi2 (db_set initial vi1 [])) = Some vi0 ->
+                    (x = initial \/ x = initial + 1) /\ vi_last_changed vi0 = initial).
+  { intros x vi0 Hg. destruct (Z.eq_dec x (initial + 1)) as [->|N1].
+    - rewrite db_get_set_same in Hg. injection Hg as <-. split; [right; reflexivity|exact Hlc2].
+    - rewrite db_get_set_other in Hg by exact N1.
+      destruct (Z.eq_dec x initial) as [->|N2].
+      + rewrite db_get_set_same in Hg. injection Hg as <-. split; [left; reflexivity|exact Hlc1].
+      + rewrite db_get_set_other in Hg by exact N2. discriminate. }
+  assert (Htop : top_of (mkSt initial 0 vs nx initial) = initial + 1) by reflexivity.
+  constructor; cbn [n_state n_db n_sets n_base st_initial st_last st_vals st_next st_changed];
+    rewrite ?Htop.
+  - reflexivity.
+  - left. reflexivity.
+  - lia.
+  - left. reflexivity.
+  - intros h x [E|[E|[]]]; injection E as <- <-; split; (lia || assumption).
+  - intros h Hh. destruct (Z.eq_dec h initial) as [->|Hne].
+    + exists vs. right. left. reflexivity.
+    + assert (h = initial + 1) by lia. subst h. exists nx. left. reflexivity.
+  - lia.
+  - intros x vi0 Hg. apply Hkeys in Hg. lia.
+  - exists vi2. split; [apply db_get_set_same|exact Hlc2].
+  - intros h1 h2 vi1' vi2' Hb Hle G1 G2. apply Hkeys in G1. apply Hkeys in G2.
+    destruct G1 as [_ ->]. destruct G2 as [_ ->]. split; [lia|]. split; [lia|left; reflexivity].
+  - intros h x [E|[E|[]]] Hb; injection E as <- <-.
+    + exists vi2. split; [apply db_get_set_same|]. rewrite Hlc2.
+      destruct Hvi2 as [(Hc & Hset)|(Hlt & Hnz & Hnone)]; [left; split; assumption|right].
+      split; [exact Hnone|]. split; [exact Hlt|]. split; [exact Hnz|].
+      destruct (ptr_ls_bounds K (initial + 1) initial HK ltac:(lia) Hlt Hnz) as (Hb1 & Hb2 & _).
+      set (ls := last_stored_height_for K (initial + 1) initial) in *.
+      assert (Els : ls = initial) by lia. rewrite Els. exists vs.
+      split; [right; left; reflexivity|]. split; [exact Hfull1|].
+      replace (initial + 1 - initial) with 1 by lia. simpl. rewrite Eipp. reflexivity.
+    + exists vi1. split; [rewrite db_get_set_other by lia; apply db_get_set_same|].
+      left. split; [exact Hset1|left; symmetry; exact Hlc1].
+Qed.
+
+Lemma pinv_prune : forall K initial n from to,
+  0 < K <= max_int32 -> 0 < initial ->
+  PInv K initial n -> n_base n <= to -> PInv K initial (step K n (OPrune from to)).
+Proof.
+  intros K initial [s d b sets] from to HK Hinit I Hbt. unfold step.
+  cbn [n_state n_db n_sets n_base] in *.
+  destruct (prune_states K d from to) as [d'|] eqn:Ep; [|exact I].
+  apply prune_states_spec in Ep. destruct Ep as (Hft & vit & Hgto & Hspec).
+  destruct I as [I1 I2 I3 I4 I5 I7 IB IK IT IM I11].
+  cbn [n_state n_db n_sets n_base] in *.
+  set (T := top_of s) in *.
+  pose proof (IK _ _ Hgto) as HtoT.
+  replace (Z.max b to) with to by lia.
+  assert (Hout : forall x, to <= x -> db_get x d' = db_get x d).
+  { intros x Hx. apply (proj1 (Hspec x)). right. exact Hx. }
+  constructor; cbn [n_state n_db n_sets n_base]; fold T; try assumption.
+  - lia.
+  - intros x vi0 Hg. destruct (Z_lt_dec x to) as [Hlt|Hge]; [lia|].
+    rewrite Hout in Hg by lia. eapply IK; exact Hg.
+  - destruct IT as (vi & Hg & Hl). exists vi. split; [rewrite Hout by lia; exact Hg|exact Hl].
+  - intros h1 h2 vi1 vi2 Hb Hle G1 G2. rewrite Hout in G1 by lia. rewrite Hout in G2 by lia.
+    eapply IM; [|exact Hle|exact G1|exact G2]. lia.
+  - intros h vs Hin Hb.
+    destruct (I11 h vs Hin ltac:(lia)) as (vi & Hg & Hc).
+    exists vi. split; [rewrite Hout by lia; exact Hg|].
+    destruct Hc as [Hf|(Hn & Hlt & Hnz & vs0 & Hin0 & Hf0 & Hit)]; [left; exact Hf|right].
+    split; [exact Hn|]. split; [exact Hlt|]. split; [exact Hnz|]. exists vs0.
+    split; [exact Hin0|]. split; [|exact Hit].
+    set (ls := last_stored_height_for K h (vi_last_changed vi)) in *.
+    destruct Hf0 as (lc0 & Hgl). exists lc0.
+    destruct (Z_lt_dec ls from) as [Hlo|Hlo];
+      [rewrite (proj1 (Hspec ls)) by (left; exact Hlo); exact Hgl|].
+    destruct (Z_le_dec to ls) as [Hhi|Hhi]; [rewrite Hout by exact Hhi; exact Hgl|].
+    (* from <= ls < to: ls is the last-stored height of [to], which is kept *)
+    pose proof (proj2 (Hspec ls) ltac:(lia)) as Hpe.
+    destruct (I7 to ltac:(lia)) as (vto & Hinto).
+    destruct (I11 to vto Hinto Hbt) as (vit' & Hg' & Hc').
+    rewrite Hgto in Hg'. injection Hg' as <-.
+    destruct (IM to h vit vi Hbt Hb Hgto Hg) as (M1 & M2 & M3).
+    assert (Hls : ls = Z.max (h - Z.rem h K) (vi_last_changed vi)) by reflexivity.
+    assert (Elc : vi_last_changed vi = vi_last_changed vit) by lia.
+    assert (Ecp : to - Z.rem to K = h - Z.rem h K) by (apply cp_same; lia).
+    pose proof (rem_range to K ltac:(lia) ltac:(lia)) as Hrt.
+    destruct Hc' as [(_ & [Hw|Hw])|(Hn' & _)]; [lia|lia|].
+    rewrite Hn' in Hpe.
+    assert (Els : last_stored_height_for K to (vi_last_changed vit) = ls).
+    { unfold last_stored_height_for. rewrite Ecp, <- Elc. reflexivity. }
+    rewrite Els in Hpe.
+    destruct Hpe as [(Hk & _)|(_ & v & Hgv & Hcase)].
+    + simpl in Hk. rewrite Z.eqb_refl in Hk. rewrite orb_true_r in Hk. discriminate.
+    + rewrite Hgl in Hgv. injection Hgv as <-.
+      destruct Hcase as [(_ & Hd')|(Hnone & _)]; [exact Hd'|discriminate].
+Qed.
+
+Fixpoint forward (K : Z) (n : node) (ops : list op) : Prop :=
+  match ops with
+  | [] => True
+  | o :: r => match o with OPrune f t => n_base n <= t | OBlock _ => True end /\
+              forward K (step K n o) r
+  end.
+
+Lemma pinv_run : forall K initial ops n,
+  0 < K <= max_int32 -> 0 < initial ->
+  forward K n ops -> PInv K initial n -> PInv K initial (run K n ops).
+Proof.
+  intros K initial ops. induction ops as [|o ops IH]; intros n HK Hinit Hf I.
+  - exact I.
+  - unfold run. simpl. destruct Hf as [Ho Hf].
+    apply IH; try assumption.
+    destruct o as [ups|f t]; [apply pinv_block|apply pinv_prune]; assumption.
+Qed.
+
+Theorem load_exact : forall K valz initial n0 ops,
+  0 < K <= max_int32 -> 0 < initial -> start K valz initial = Some n0 -> forward K n0 ops ->
+  let n := run K n0 ops in
+  forall h vs, In (h, vs) (n_sets n) -> n_base n <= h -> load_validators K (n_db n) h = LvOk vs.
+Proof.
+  intros K valz initial n0 ops HK Hinit Hstart Hf n h vs Hin Hb.
+  apply (pinv_load K initial); try assumption.
+  apply pinv_run; try assumption. apply (pinv_start K valz); assumption.
+Qed.
+
+(* ------------------------------------------------------------------ non-vacuity of load_exact *)
+
+Definition ex_ops2 : list op :=
+  [OBlock []; OBlock []; OBlock [mkVal [4%N] 5 0]; OBlock []; OBlock []; OBlock []; OBlock [];
+   OPrune 3 10;
+   OBlock []; OBlock [mkVal [2%N] 0 0; mkVal [1%N] 15 0]; OBlock []; OBlock [];
+   OPrune 10 14; OBlock []; OBlock []].
+Definition lv_tag (r : lv_res) : Z :=
+  match r with LvOk _ => 0 | LvNoValSet => 1 | LvErr => 2 | LvPanic => 3 end.
+
+(* K = 4, initial height 3, thirteen blocks and two prunes that both succeed (base 10, then 14).
+   After the run heights 3..17 are recorded; the store still has 7, 8 (kept by the first prune),
+   13 (kept by the second: LastHeightChanged of 14, below the base) and 14..17; 14, 15 and 17 are
+   pointer entries, 14 and 15 pointing below the base.  Every recorded height >= base reads back
+   exactly; pruned heights answer ErrNoValSetForHeight. *)
+Example load_exact_nonvacuous :
+  exists n0, start 4 ex_valz 3 = Some n0 /\ forward 4 n0 ex_ops2 /\
+    let n := run 4 n0 ex_ops2 in
+    n_base n = 14 /\
+    map fst (n_sets n) = [17; 16; 15; 14; 13; 12; 11; 10; 9; 8; 7; 6; 5; 4; 3] /\
+    map (fun h => lv_tag (load_validators 4 (n_db n) h)) [3; 4; 5; 6; 7; 8; 9; 10; 11; 12; 13]
+      = [1; 1; 1; 1; 0; 0; 1; 1; 1; 1; 0] /\
+    map (is_ptr (n_db n)) [13; 14; 15; 16; 17] = [false; true; true; false; true] /\
+    let kept := filter (fun hv => n_base n <=? fst hv) (n_sets n) in
+    map fst kept = [17; 16; 15; 14] /\
+    map (fun hv => load_validators 4 (n_db n) (fst hv)) kept = map (fun hv => LvOk (snd hv)) kept.
+Proof.
+  eexists. split; [vm_compute; reflexivity|].
+  split; [vm_compute; repeat split; intro H; discriminate H|].
+  vm_compute. repeat split; reflexivity.
 Qed.
